@@ -148,11 +148,12 @@ func sortFuncInfos(fis []*FuncInfo) {
 
 func checkC12(w *World, r *Result) {
 	r.Explanation = "Decides structural necessary conditions: REC-C12a/REC-memo composite nodes are registered under the looked-up key before the recursive descent and handleType returns the memo hit first (termination on recursive declarations); AGR-C12b createType is only entered through handleType, and every child type obtained from go/types accessors is passed to handleType; AGR-C12c node fields are filled from the accessor of the same name of the switch-bound go/types value (Key<-Key(), Elem<-Elem(), Len<-Len(), slice Len=-1) and Type() rebuilds with NewMap(Key,Elem), NewArray(Elem,Len) under Len>=0, NewSlice(Elem), NewPointer(Elem), named kinds returning their stored *types.Named; AGR-C12k alias keys are resolved with types.Unalias (all levels); AGR-C03a every test of Array.Len in package analysis is equivalent to Len>=0 or its negation; AGR-C12t the string NewTime compares against equals the underlying type string of time.Time in the loaded standard library; AGR-C12n NewBasicKind maps the go/types flag of each kind to the kind of the same name; PTH-C12d Source is ordered by declaration position between collection and use. Does not decide: identity of the round trip through Type() as a value-level statement, classification values beyond the agreements above."
-	r.Rules = []string{"REC-C12a", "REC-memo", "AGR-C12b", "AGR-C12c", "AGR-C12s", "AGR-C12k", "AGR-C03a", "AGR-C12t", "AGR-C12n", "PTH-C12d", "PKG-ID", "MEMO-KEY", "ALIAS-APPEND", "STATE-PKG", "POS-ORDER", "BASIC-ID"}
+	r.Rules = []string{"REC-C12a", "REC-memo", "AGR-C12b", "AGR-C12c", "AGR-C12s", "AGR-C12k", "AGR-C03a", "AGR-C12t", "AGR-C12n", "PTH-C12d", "PKG-ID", "MEMO-KEY", "ALIAS-APPEND", "STATE-PKG", "POS-ORDER", "BASIC-ID", "ALIAS-STORE"}
 	basicIDRule(w, r, func(rel string) bool { return rel == "analysis" })
 	posOrderRule(w, r, func(rel string) bool { return rel == "analysis" })
 	statePkgRule(w, r, func(rel string) bool { return rel == "analysis" })
 	aliasAppendRule(w, r, func(rel string) bool { return rel == "analysis" })
+	aliasStoreRule(w, r, func(rel string) bool { return rel == "analysis" })
 	// recursion guards of the analysis SCC
 	sub := &Result{}
 	runREC(w, sub, func(rel string) bool { return rel == "analysis" })
